@@ -246,14 +246,21 @@ func (b *Body) instr(in ssa.Instruction, blk *ssa.BasicBlock, reach *T, st State
 }
 
 func (b *Body) freshRef(v ssa.Value) *T {
+	older := b.olderRefs(v)
+	x := b.declVal(v)
+	b.markFresh(x.T, older)
+	return x.T
+}
+
+// olderRefs lists every reference computed so far (they designate objects
+// older than an allocation happening now).
+func (b *Body) olderRefs(exclude ssa.Value) []*T {
 	ft := b.ft
-	// every reference computed before this allocation designates an older
-	// object: the new one is distinct from all of them
 	var older []*T
 	seen := map[string]bool{}
 	for bb := b; bb != nil; bb = bb.parent {
 		for ov, val := range bb.vals {
-			if val == nil || val.T == nil || val.Tuple != nil || ov == v {
+			if val == nil || val.T == nil || val.Tuple != nil || ov == exclude {
 				continue
 			}
 			if _, isConst := ov.(*ssa.Const); isConst {
@@ -276,16 +283,21 @@ func (b *Body) freshRef(v ssa.Value) *T {
 			}
 		}
 	}
-	x := b.declVal(v)
-	ft.fact(Not(Eq(x.T, L("nil"))))
+	return older
+}
+
+// markFresh states that reference x designates a new object: non-nil,
+// distinct from every older reference and from every reference stored in
+// memory at the places contracts load references from.
+func (b *Body) markFresh(x *T, older []*T) {
+	ft := b.ft
+	ft.fact(Not(Eq(x, L("nil"))))
 	for _, o := range older {
-		if o.String() != x.T.String() {
-			ft.fact(Not(Eq(x.T, o)))
+		if o.String() != x.String() {
+			ft.fact(Not(Eq(x, o)))
 		}
 	}
-	ft.allocRefs = append(ft.allocRefs, x.T)
-	// ... and from every reference stored in memory so far, at the places
-	// contracts load references from
+	ft.allocRefs = append(ft.allocRefs, x)
 	st := b.curState
 	if st != nil {
 		for _, src := range sortedKeys(ft.refSources) {
@@ -299,17 +311,16 @@ func (b *Body) freshRef(v ssa.Value) *T {
 				for _, sl := range parts[2:] {
 					term = A(sl, term)
 				}
-				ft.fact(Forall([][2]string{{xv, "Ref"}, {jv, "Int"}}, Not(Eq(term, x.T)), []*T{term}))
+				ft.fact(Forall([][2]string{{xv, "Ref"}, {jv, "Int"}}, Not(Eq(term, x)), []*T{term}))
 				continue
 			}
 			term := Sel(cur, L(xv))
 			for _, sl := range parts[1:] {
 				term = A(sl, term)
 			}
-			ft.fact(Forall([][2]string{{xv, "Ref"}}, Not(Eq(term, x.T)), []*T{term}))
+			ft.fact(Forall([][2]string{{xv, "Ref"}}, Not(Eq(term, x)), []*T{term}))
 		}
 	}
-	return x.T
 }
 
 func (b *Body) alloc(x *ssa.Alloc, blk *ssa.BasicBlock, st State) {
